@@ -57,3 +57,8 @@ for _h, _ph in [("prefix_step_signature", "WaitingSignature"), ("prefix_step_box
     K("ct." + _h, ["C09", "C10"], "jxl-bitstream", PA, PAM, _h,
       "bounded:buffer <= 24 bytes, every cut (all Inv states in phase %s); specification-level, linked to the code by ct.step_*" % _ph,
       ["ParseEvents::next (through spec_step)"], _PFX)
+
+# promoted to the quick tier by the orchestrator: each guards a seeded defect class and runs in < 200 s
+for _o in OBLIGATIONS:
+    if _o["id"] in ['ct.step_box_header']:
+        _o["tier"] = "quick"
